@@ -220,6 +220,22 @@ func runC01(o *opts) error {
 		}
 	}
 	r.stats["datasets"] = ndatasets
+
+	// long sort clauses over datasets with ties, queries without a predicate (c01_ties.go); sequences of queries in
+	// which an earlier caller refines the query object it parsed (c01_history.go).  These phases come last and draw
+	// from their own generator: the streams above are unchanged, and an M line precedes only lines of these phases
+	c01TieSweeps(r)
+	g2 := &c01Gen{r: newRng(o.seed ^ 0x5e55104), stats: r.stats}
+	nties, perTies := 24, 8
+	if o.thorough() {
+		nties, perTies = 300, 12
+	}
+	if o.n > 0 {
+		nties = o.n
+	}
+	c01RandomTies(r, g2, nties, perTies, dotted)
+	r.stats["tie-datasets"] = nties
+	c01HistorySweeps(r)
 	writeJSON(o.out, "stats.json", r.stats)
 	return nil
 }
@@ -248,6 +264,8 @@ func (r *c01Runner) replay(path string) error {
 			r.useVariant(variant)
 		case "T":
 			r.replayStrategy(toks)
+		case "M":
+			r.replayPrior(toks)
 		case "D":
 			d, err := c01ParseDataset(toks[1:])
 			if err != nil {
